@@ -40,6 +40,9 @@ def expr(rng, depth):
         for sub in subs:
             out += "${%s}%s" % (sub, rng.choice(PIECES))
         return "`%s`" % out
+    if rng.random() < 0.15:
+        # a bare call of the method that is configured "allowed without callee"
+        return "aloneMethod(%s)" % expr(rng, depth - 1)
     callee = rng.choice(CALLEES) if rng.random() < 0.75 else "%s(%s)" % (rng.choice(CALLEES), expr(rng, depth - 2))
     return "%s(%s)" % (callee, expr(rng, depth - 1))
 
